@@ -142,6 +142,10 @@ func runC06(c *Ctx, r *Report) {
 		r.Floor("R-C06.16", "signers in the identity provider", nsign, 1)
 	}
 	importRules(c, r, "C18", []string{"R-C18.2"}, "R-C06.14")
+	r.Doc("R-C06.18", "the codec objects that the merge's concurrent verifications share are concurrency-safe (adopted from C18: under a link key Verify re-seals the links through the codec's marshaller, and a stateful marshaller shared by the workers makes entries written by Append fail verification)")
+	importRules(c, r, "C18", []string{"R-C18.7"}, "R-C06.18", 0)
+	r.Doc("R-C06.19", "the merge validation refuses a candidate only on what Append fixes for every entry (presence, hash, log id, version, key, signature, identity, clock), through the access controller or through the signature check: no condition of the validation reads the payload, the links or the additional data (an entry with an empty payload or no links is produced by Append and must stay mergeable)")
+	validatorRefusesOnlyOnFixedAttributes(c, r, "R-C06.19")
 	r.Doc("R-C06.17", "what is validated is what is merged, and nothing is merged unvalidated: a log never shares its index with another log (adopted from C02: entries would appear without CanAppend/Verify), and verifying under a link key never writes into the candidate (adopted from C05: Copy shares nothing with the original)")
 	importRules(c, r, "C02", []string{"R-C02.12"}, "R-C06.17")
 	importRules(c, r, "C05", []string{"R-C05.11"}, "R-C06.17")
